@@ -70,7 +70,7 @@ def strategy_(d, tier):
                 items.append(["org", d.int(0, 0x300)])
             elif k == "res":
                 items.append(["res", d.int(1, 9)])
-            elif k in ("mexp", "lst", "savres"):
+            elif k in ("mexp", "lst", "savres", "inc"):
                 items.append([k, d.int(0, 7)])
             else:
                 items.append([k])
@@ -81,6 +81,9 @@ def strategy_(d, tier):
 
 def strategy(tier):
     return strategy_(tier)
+
+
+INC2 = "; include file of the same name in a sub-directory: code on the same line numbers, one line more\n\tnop\ninclab2:\tnop\n\tnop\n"
 
 
 def render(case):
@@ -186,6 +189,11 @@ def render(case):
                 add("\tinclude \"inc1.inc\"")
                 labels.append("inclab")
                 feats.add("include")
+                if len(it) > 1 and it[1] % 2:
+                    # another file with the same base name in a sub-directory (see INC2)
+                    add("\tinclude \"sub/inc1.inc\"")
+                    labels.append("inclab2")
+                    feats.add("include-same-base-name")
             elif k == "phase" and inseg == "code" and cpu != "16c84":
                 if phased and it[1] % 2:
                     add("\tdephase")
@@ -345,8 +353,24 @@ def verify(lst_text, map_text, share_text, trace_text, pbytes, radix, complete, 
         for t in final:
             if t["kind"] in ("code", "reserve"):
                 starts.setdefault((segname.get(t["seg"]), os.path.basename(t["file"]), t["line"]), set()).add(t["load"])
+        # files are compared by their full name as long as trace and MAP spell it the same way (two include files may
+        # share their base name), by base name otherwise
+        full = {t["file"] for t in final}
+        fstarts = {}
+        for t in final:
+            if t["kind"] in ("code", "reserve"):
+                fstarts.setdefault((segname.get(t["seg"]), t["file"], t["line"]), set()).add(t["load"])
         for seg, fil, line, addr in info:
             st["mapentries"] += 1
+            if fil in full:
+                s = fstarts.get((seg, fil, line))
+                if not s and not any(k[1] == fil and k[2] == line for k in fstarts):
+                    st["map_nocode"] = st.get("map_nocode", 0) + 1
+                    continue
+                if not s or addr not in s:
+                    return ("MAP entry %d:%08X (segment %s, file %s): no code of that line of that file starts there "
+                            "(starts: %s)" % (line, addr, seg, fil, sorted(hex(x) for x in (s or [])))), st
+                continue
             s = starts.get((seg, os.path.basename(fil or ""), line))
             if not s and not any(k[1] == os.path.basename(fil or "") and k[2] == line for k in starts):
                 # an entry for a statement that emitted nothing (ALIGN without gap, ...): nothing to compare
@@ -441,7 +465,7 @@ def execute(case):
             cpu_of_line = single_cpu(name)
         else:
             src, inc, labels, feats, must, cpu_of_line = render(case)
-            r = asl.assemble({"t.asm": src, "inc1.inc": inc}, args=args, env=env, workdir=d,
+            r = asl.assemble({"t.asm": src, "inc1.inc": inc, "sub/inc1.inc": INC2}, args=args, env=env, workdir=d,
                              want=("t.lst", "t.map", "t" + sext))
             if r.timed_out:
                 return engine.inconclusive("timeout", classes)
